@@ -9,24 +9,26 @@ import (
 )
 
 type cg struct {
-	g        *hx.Gen
-	keys     [][]byte // key universe of the case (view keys)
-	bounds   []string // iterator bound tokens
-	ops      []string
-	hasBdg   bool
-	emptyOK  bool // the empty / nil key may be used
-	live     map[string]bool
-	nextB    int
-	open     map[int]string // batch id -> "fresh" | "used" (written/reset at least once)
-	pend     map[int]int    // ops in the batch
-	bigIter  bool
-	effect   bool
-	noREmpty bool // no empty-but-non-nil reverse start bound (unused since afaf3d1)
-	bdgOnce  bool // badger batches single-use (only on a tree where reuse kills the process)
-	rewrite  bool // written batches may be written again without Reset
-	stepwise bool // step-wise iterators (iopen/istep/iclose) interleaved with reads and with writes OUTSIDE their domains
-	itOpen   map[int][3]string // id -> s, e, rev
-	nextIt   int
+	g         *hx.Gen
+	keys      [][]byte // key universe of the case (view keys)
+	bounds    []string // iterator bound tokens
+	ops       []string
+	hasBdg    bool
+	emptyOK   bool // the empty / nil key may be used
+	live      map[string]bool
+	nextB     int
+	open      map[int]string // batch id -> "fresh" | "used" (written/reset at least once)
+	pend      map[int]int    // ops in the batch
+	bigIter   bool
+	effect    bool
+	noREmpty  bool              // no empty-but-non-nil reverse start bound (unused since afaf3d1)
+	bdgOnce   bool              // badger batches single-use (only on a tree where reuse kills the process)
+	view      bool              // the case runs through a PrefixDB view
+	emptyVals bool              // empty and nil VALUES too (Set(k, nil) stores the empty value; the key exists afterwards)
+	rewrite   bool              // written batches may be written again without Reset
+	stepwise  bool              // step-wise iterators (iopen/istep/iclose) interleaved with reads and with writes OUTSIDE their domains
+	itOpen    map[int][3]string // id -> s, e, rev
+	nextIt    int
 }
 
 // inDomain: the interface's ranges (forward s <= k < e, reverse e < k <= s; nil = unbounded, nil start forward = empty)
@@ -45,7 +47,8 @@ func (c *cg) writable(k string) bool {
 		kb = []byte{}
 	}
 	for _, d := range c.itOpen {
-		if inDomain(kb, d[0], d[1], d[2] == "1") {
+		// a Seek may move the start anywhere: the domain that must stay unwritten is everything up to the END bound
+		if inDomain(kb, "nil", d[1], d[2] == "1") {
 			return false
 		}
 	}
@@ -81,11 +84,37 @@ func (c *cg) step() {
 				}
 			}
 			id := ids[c.rnd(len(ids))]
-			if c.rnd(100) < 12 {
+			d := c.itOpen[id]
+			switch r := c.rnd(100); {
+			case r < 12:
 				c.emit(fmt.Sprintf("iclose id=%d", id))
 				delete(c.itOpen, id)
 				g.Count("op:iclose")
-			} else {
+				return
+			case r < 30 && (!c.view || findingPrefixSeekNoEffect):
+				// Seek at every relation to the key set and to the iterator's own domain: before the first key, on a key,
+				// between keys, after the last, outside [start, end), nil, on an exhausted iterator
+				k := c.bound()
+				for d[2] == "1" && k == "-" && c.hasBdg && !findingBdgSeekEmptyReverse {
+					k = c.bound()
+				}
+				c.emit(fmt.Sprintf("iseek id=%d k=%s", id, k))
+				g.Count("op:iseek")
+				g.Count("seek-key:" + boundKind(k))
+				return
+			case r < 36:
+				c.emit(fmt.Sprintf("idomain id=%d", id))
+				g.Count("op:idomain")
+				return
+			case r < 40:
+				c.emit(fmt.Sprintf("ivalid id=%d", id))
+				return
+			case r < 46:
+				c.emit(fmt.Sprintf("%s id=%d", []string{"ikey", "ivalue", "inext"}[c.rnd(3)], id))
+				g.Count("op:ikey/ivalue/inext")
+				return
+			}
+			{
 				c.emit(fmt.Sprintf("istep id=%d", id))
 				g.Count("op:istep")
 			}
@@ -107,6 +136,10 @@ func (c *cg) step() {
 func (c *cg) rnd(n int) int { return c.g.Rng.Intn(n) }
 
 func (c *cg) val() string {
+	if c.emptyVals && c.rnd(100) < 35 {
+		c.g.Count("value-len:0")
+		return []string{"-", "nil"}[c.rnd(2)]
+	}
 	r := c.rnd(100)
 	n := 1 + c.rnd(4)
 	switch {
@@ -175,7 +208,7 @@ func universe(g *hx.Gen, emptyOK bool) [][]byte {
 		case 6:
 			add(base, base)
 		case 7:
-			add(base+1)
+			add(base + 1)
 		case 8:
 			add(base-1, 0xff)
 		case 9:
@@ -249,6 +282,9 @@ func (c *cg) step0() {
 		}
 		delete(c.live, kk)
 		g.Count("op:" + op)
+	case r < 34:
+		c.emit([]string{"memkeys", "dir"}[c.rnd(2)])
+		g.Count("op:memkeys/dir")
 	case r < 46:
 		op := []string{"get", "get", "has", "load", "exist"}[c.rnd(5)]
 		c.emit(fmt.Sprintf("%s k=%s", op, c.key()))
@@ -292,6 +328,14 @@ func (c *cg) step0() {
 	}
 }
 
+// open findings of the Seek family (proposed/C19-seek.md) and of oversized batches (proposed/C19-big-batch-split.md);
+// false = the generator stays away from them
+const (
+	findingBigBatchSplit       = false // bolt flushes a batch by itself at 100000 ops, badger's WriteBatch whenever its txn is full
+	findingPrefixSeekNoEffect  = false // prefixIterator.Seek has a value receiver: the iterator is not moved
+	findingBdgSeekEmptyReverse = false // badgerIterator.Seek([]byte{}) on a reverse iterator rewinds to the last key
+)
+
 func boundKind(b string) string {
 	if b == "nil" || b == "-" {
 		return b
@@ -327,6 +371,11 @@ func (c *cg) batchStep() {
 		return
 	}
 	id := ids[c.rnd(len(ids))]
+	if c.rnd(100) < 8 {
+		c.emit(fmt.Sprintf("bsize id=%d", id))
+		g.Count("op:bsize")
+		return
+	}
 	r := c.rnd(100)
 	switch {
 	case r < 45:
@@ -497,6 +546,48 @@ func (P) Generate(g *hx.Gen) {
 		"set k=01 v=01", "set k=- v=aa", "put k=- v=ab", "setsync k=nil v=ac", "get k=-", "load k=-", "has k=-", "exist k=-", "iter s=nil e=nil", "del k=-", "delerr k=-",
 		"bnew id=0", "bset id=0 k=- v=bb", "bset id=0 k=02 v=02", "bdel id=0 k=-", "bwrite id=0", "iter s=nil e=nil", "riter s=nil e=nil", "get k=nil"}, true)
 
+	// ---- child-process probes: closed stores, double Close, overwritten files, another shard count (pinned table in the model)
+	{
+		ops := []string{"case backends=-"}
+		for _, k := range []string{"closed-reads", "closed-writes", "closed-batch-write", "double-close-reopen", "corrupt-open", "reshard"} {
+			for _, b := range []string{"mem", "ldb", "bolt", "bdg"} {
+				if g.Thorough() || !(k == "closed-writes" && b == "bdg") { // that one blocks until the 3 s limit: thorough tier only
+					ops = append(ops, fmt.Sprintf("childprobe kind=%s b=%s", k, b))
+				}
+			}
+		}
+		g.Count("kind:childprobes")
+		g.Case("child probes: closed store, double close, corrupt files, reshard", ops, true)
+	}
+	// ---- batches of a few thousand ops stay atomic on every backend; beyond bolt's 100000 ops / badger's transaction size the
+	// adapters write a part by themselves BEFORE Write (finding big-batch-split, gated)
+	g.Case("big batch below every limit", []string{"case backends=mem,ldb,bolt,bdg prefix=none", "bigbatch n=3000 tag=a", "bigbatch n=1 tag=b", "bigbatch n=0 tag=c"}, true)
+	if findingBigBatchSplit {
+		g.Case("big batch beyond badger's transaction size", []string{"case backends=mem,ldb,bdg prefix=none", "bigbatch n=40000 tag=a"}, true)
+		g.Case("big batch beyond boltMaxBatchSize", []string{"case backends=mem,bolt prefix=none", "bigbatch n=100001 tag=a"}, true)
+	}
+	g.Case("corpus batch laws: same keys set and deleted in different orders, Write = WriteSync = Commit, empty batch, reuse", []string{"case backends=mem,ldb,bolt,bdg prefix=none",
+		"bnew id=0", "bnew id=1", "bnew id=2", "bsize id=0",
+		"bset id=0 k=01 v=0a", "bdel id=0 k=01", "bset id=0 k=02 v=0b", "bset id=0 k=02 v=0c", "bdel id=0 k=03", "bsize id=0",
+		"bdel id=1 k=11", "bset id=1 k=11 v=1a", "bset id=1 k=12 v=1c", "bset id=1 k=12 v=1b", "bset id=1 k=13 v=1d", "bsize id=1",
+		"bwrite id=2", "iter s=nil e=nil", "bwrite id=0", "iter s=nil e=nil", "bwritesync id=1", "iter s=nil e=nil",
+		"breset id=0", "breset id=1", "bsize id=0", "bset id=0 k=11 v=2a", "bdel id=0 k=12", "bcommit id=0", "iter s=nil e=nil",
+		"breset id=0", "bset id=0 k=21 v=3a", "bwritesync id=0", "breset id=0", "bdel id=0 k=21", "bset id=0 k=21 v=3b", "bdel id=0 k=21", "bcommit id=0", "riter s=nil e=nil", "memkeys", "dir"}, true)
+	g.Case("corpus seek: before first, on a key, between, after last, outside the domain, nil, exhausted", []string{"case backends=mem,ldb,bolt,bdg prefix=none",
+		"set k=02 v=02", "set k=04 v=04", "set k=06 v=06", "set k=08 v=08",
+		"iopen id=0 s=03 e=07 rev=0", "idomain id=0", "iseek id=0 k=01", "idomain id=0", "istep id=0", "iseek id=0 k=04", "ikey id=0", "ivalue id=0", "istep id=0", "iseek id=0 k=05", "istep id=0",
+		"iseek id=0 k=07", "ivalid id=0", "ikey id=0", "inext id=0", "iseek id=0 k=09", "istep id=0", "iseek id=0 k=nil", "istep id=0", "istep id=0", "istep id=0", "istep id=0", "istep id=0", "iseek id=0 k=06", "istep id=0", "istep id=0",
+		"iopen id=1 s=07 e=03 rev=1", "iseek id=1 k=09", "idomain id=1", "istep id=1", "iseek id=1 k=06", "istep id=1", "iseek id=1 k=05", "istep id=1", "iseek id=1 k=03", "ivalid id=1", "iseek id=1 k=01", "ivalid id=1", "iseek id=1 k=nil", "istep id=1", "iseek id=1 k=0400", "istep id=1", "istep id=1", "istep id=1", "inext id=1", "ikey id=1",
+		"iclose id=0", "iclose id=1"}, true)
+	if findingPrefixSeekNoEffect {
+		g.Case("seek through a PrefixDB view", []string{"case backends=mem,ldb,bolt,bdg prefix=70", "set k=01 v=01", "set k=03 v=03", "set k=05 v=05",
+			"iopen id=0 s=nil e=nil rev=0", "iseek id=0 k=03", "istep id=0", "iseek id=0 k=09", "ivalid id=0", "iclose id=0"}, true)
+	}
+	if findingBdgSeekEmptyReverse {
+		g.Case("badger reverse seek to the empty key", []string{"case backends=mem,ldb,bolt,bdg prefix=none", "set k=01 v=01", "set k=03 v=03",
+			"iopen id=0 s=nil e=nil rev=1", "iseek id=0 k=-", "istep id=0", "iclose id=0"}, true)
+	}
+
 	// ---- (L) leaf functions
 	nL := g.Pick(12, 60)
 	for k := 0; k < nL; k++ {
@@ -566,6 +657,7 @@ func (P) Generate(g *hx.Gen) {
 			c.rewrite, tag = true, " tags=rewrite"
 			g.Count("kind:rewrite(batch written again without reset)")
 		}
+		c.view = view
 		if view {
 			p := prefixShapes(g)
 			c.emptyOK = true // the empty VIEW key is prefix itself in the store: legal everywhere
@@ -615,6 +707,50 @@ func (P) Generate(g *hx.Gen) {
 		c.emit("iter s=nil e=nil")
 		g.Count("kind:emptykey")
 		g.Case("empty key on all engines", c.ops, true)
+	}
+
+	// ---- (V) empty and nil values (excluded by the property text as backend-specific; on this tree all four adapters store
+	// an empty value and report the key as present, so the stream runs with every monitor on)
+	nV := g.Pick(20, 80)
+	for k := 0; k < nV; k++ {
+		c := &cg{g: g, live: map[string]bool{}, open: map[int]string{}, pend: map[int]int{}, hasBdg: true, bdgOnce: bdgOnce, emptyVals: true, itOpen: map[int][3]string{}}
+		c.keys = universe(g, false)
+		c.bounds = boundsOf(g, c.keys)
+		c.stepwise = k%2 == 0
+		if k%3 == 0 {
+			c.view = true
+			c.emit("case backends=mem,ldb,bolt,bdg prefix=7a")
+		} else {
+			c.emit("case backends=mem,ldb,bolt,bdg prefix=none")
+		}
+		n := 25 + g.Rng.Intn(30)
+		for i := 0; i < n; i++ {
+			c.step()
+		}
+		c.closeIters()
+		c.emit("iter s=nil e=nil")
+		g.Count("kind:empty-values")
+		g.Case("empty and nil values", c.ops, true)
+	}
+
+	// ---- (W) bound sweep: every (start, end) pair over all boundary points of a fixed key set, both directions, every backend
+	for _, pfx := range []string{"none", "70", "70ff"} {
+		ops := []string{"case backends=mem,ldb,bolt,bdg prefix=" + pfx}
+		for _, k := range []string{"02", "04", "0400", "06", "ff"} {
+			ops = append(ops, fmt.Sprintf("set k=%s v=%s", k, k))
+		}
+		pts := []string{"nil", "-", "01", "02", "03", "04", "0400", "0401", "05", "06", "07", "ff", "ff00"}
+		for _, s0 := range pts {
+			for _, e0 := range pts {
+				ops = append(ops, fmt.Sprintf("iter s=%s e=%s", s0, e0), fmt.Sprintf("riter s=%s e=%s", s0, e0))
+			}
+			ops = append(ops, "piter p="+s0)
+			if s0 != "nil" {
+				ops = append(ops, "iterprefix p="+s0)
+			}
+		}
+		g.Count("kind:bound-sweep")
+		g.Case("bound sweep prefix="+pfx, ops, true)
 	}
 
 	// ---- (S) sharded stores (counts=4): lookups exact, iteration as a sorted multiset
